@@ -207,12 +207,19 @@ package keeper
 
 //@ func (*Keeper).setOperatorConsKeyForChainID
 //@   flag pure=IsOperatorFrozen,IsOperatorRemovingKeyFromChainID,ToTmProtoKey,ToConsAddr,GetOperatorAddressForChainIDAndConsAddr,getOperatorConsKeyForChainID,EqualsWrapped,getOperatorPrevConsKeyForChainID
-//@   flag havoc=setOperatorPrevConsKeyForChainID,setOperatorConsKeyForChainIDUnchecked,AfterOperatorKeyReplaced,AfterOperatorKeySet,Hooks
+//@   flag havoc=setOperatorPrevConsKeyForChainID,setOperatorConsKeyForChainIDUnchecked,AfterOperatorKeyReplaced,AfterOperatorKeySet,Hooks,DeleteOperatorAddressForChainIDAndConsAddr
 //@   modifies state(ctx)
 //@   before[C06.sock.unique,C07.sock.unused] setOperatorConsKeyForChainIDUnchecked requires !res_GetOperatorAddressForChainIDAndConsAddr_0 && !res_IsOperatorRemovingKeyFromChainID_0
 //@   before[C07.sock.consaddr]  setOperatorConsKeyForChainIDUnchecked requires arg_consAddr == res_ToConsAddr_0 && arg_opAccAddr == opAccAddr && arg_chainID == chainID
 //@   before[C07.sock.prevonce]  setOperatorPrevConsKeyForChainID requires res_getOperatorConsKeyForChainID_0 && !res_getOperatorPrevConsKeyForChainID_0 && arg_opAccAddr == opAccAddr && arg_chainID == chainID
 //@   before[C07.sock.hook]      AfterOperatorKeyReplaced requires res_getOperatorConsKeyForChainID_0 && !res_getOperatorPrevConsKeyForChainID_0 && !genesis
+// C07 (the three indexes always agree; a replaced key that never was active has nothing to wait for): when the key
+// being replaced was itself set within this epoch (a previous key is already recorded, so no replacement hook runs
+// for it), its reverse lookup is released at once - nothing else would ever prune it.
+//@   ensures[C07.sock.intermediate] err == nil && defined(res_getOperatorPrevConsKeyForChainID_0) && res_getOperatorPrevConsKeyForChainID_0 ==>
+//@        defined(res_DeleteOperatorAddressForChainIDAndConsAddr_0)
+//@   before[C07.sock.intermediate]  DeleteOperatorAddressForChainIDAndConsAddr requires res_getOperatorConsKeyForChainID_0 && res_getOperatorPrevConsKeyForChainID_0 &&
+//@        arg_chainID == chainID && arg_consAddr == res_ToConsAddr_0
 //@   ensures[C07.sock.removing] true
 
 // ---------------------------------------------------------------------------------------------
